@@ -1562,8 +1562,10 @@ namespace bloch::runtime {
         if (!cls)
             return;
         cls->staticInitStarted = true;
+        // First every static field gets its default, then the declared initialisers run in textual
+        // order. (One pass that skipped any slot already holding a value lost 'static int count =
+        // 5;' when an earlier initialiser - a constructor it runs - had already written count.)
         for (size_t i = 0; i < cls->staticFields.size(); ++i) {
-            auto& field = cls->staticFields[i];
             auto& slot = cls->staticStorage[i];
             if (slot.type != Value::Type::Void)
                 continue;
@@ -1571,7 +1573,16 @@ namespace bloch::runtime {
             auto* prevClass = m_currentClassCtx;
             m_inStaticContext = true;
             m_currentClassCtx = cls;
-            slot = defaultValueForField(field, cls->name);
+            slot = defaultValueForField(cls->staticFields[i], cls->name);
+            m_inStaticContext = prevStatic;
+            m_currentClassCtx = prevClass;
+        }
+        for (size_t i = 0; i < cls->staticFields.size(); ++i) {
+            auto& field = cls->staticFields[i];
+            bool prevStatic = m_inStaticContext;
+            auto* prevClass = m_currentClassCtx;
+            m_inStaticContext = true;
+            m_currentClassCtx = cls;
             if (field.hasInitializer && field.initializer) {
                 // A generic specialisation initialises its statics when it is first instantiated,
                 // in the middle of some function: the initialiser gets a frame of its own so that
@@ -1586,7 +1597,9 @@ namespace bloch::runtime {
                 }
                 endFrame();
                 rejectQubitCopy(init, field.line, field.column);
-                slot = stampStatic(widenToSlot(init, field.type.kind), field.type.className);
+                // the initialiser may have instantiated classes and grown the storage it lives in
+                cls->staticStorage[i] =
+                    stampStatic(widenToSlot(init, field.type.kind), field.type.className);
             }
             m_inStaticContext = prevStatic;
             m_currentClassCtx = prevClass;
